@@ -73,6 +73,34 @@ def flavours():
 # ------------------------------------------------------------------------------------------------
 # building
 
+KEEP_PER_BINARY = 3   # cached builds kept per (binary, flavour): the least recently used ones beyond that are deleted (disk space)
+
+
+def _touch(path):
+    try:
+        os.utime(path, None)
+    except OSError:
+        pass
+
+
+def _prune(name, flavour, keep):
+    prefix = '%s-%s-' % (name, flavour)
+    d = os.path.join(BUILD, 'bin')
+    olds = []
+    for fn in os.listdir(d):
+        if fn.startswith(prefix) and len(fn) == len(prefix) + 16 and os.path.join(d, fn) != keep:
+            try:
+                olds.append((os.stat(os.path.join(d, fn)).st_mtime, fn))
+            except OSError:
+                pass
+    olds.sort(reverse=True)
+    for _, fn in olds[KEEP_PER_BINARY - 1:]:
+        try:
+            os.unlink(os.path.join(d, fn))
+        except OSError:
+            pass
+
+
 def build_one(spec, flavour):
     """spec: dict(name, source, defines[], sanitize(bool), link[], std, gen(optional callable -> writes generated header))
     returns (path | None, log)"""
@@ -81,6 +109,7 @@ def build_one(spec, flavour):
     key = hashlib.sha256((tree_hash() + json.dumps({k: v for k, v in spec.items() if k != 'gen'}, sort_keys=True, default=str) + flavour).encode()).hexdigest()[:16]
     out = os.path.join(BUILD, 'bin', '%s-%s-%s' % (spec['name'], flavour, key))
     if os.path.exists(out):
+        _touch(out)
         return out, ''
     lock = open(out + '.lock', 'w')
     fcntl.flock(lock, fcntl.LOCK_EX)
@@ -120,6 +149,7 @@ def build_one(spec, flavour):
             return None, ' '.join(cmd) + '\n' + r.stdout[-6000:]
         os.rename(tmp, out)
         log('built %s (%s) in %.1fs' % (spec['name'], flavour, time.time() - t0))
+        _prune(spec['name'], flavour, out)
         return out, r.stdout
     finally:
         fcntl.flock(lock, fcntl.LOCK_UN)
